@@ -291,6 +291,13 @@ class Gen:
             if self.allow_actions and not expr.startswith("regex") and expr != "{}" and d.chance(0.3, key, "viaaction"):  # (`{}` as a call argument does not parse)
                 # the value lives in the start arguments of an action object; it is read back from there after the wait
                 ref = "$" + self.fresh("d")
+                if d.chance(0.5, key, "viaaction2"):
+                    # two action objects created back to back in the same flow: each keeps its own arguments over a save / restore
+                    ref2 = "$" + self.fresh("d")
+                    expr2 = d.choice([x for x in RICH_VALUES if not x.startswith("regex") and x != "{}"], key, "rich2")
+                    return [{"k": "raw", "text": "start DataBotAction(data=%s) as %s" % (expr, ref)}, {"k": "raw", "text": "start Data2BotAction(payload=%s) as %s" % (expr2, ref2)},
+                            self.wait_external((key, "rw")),
+                            {"k": "raw", "text": 'send %s(v=%s.start_event_arguments["data"], w=%s.start_event_arguments, c=%s.context)' % (self.fresh("M"), ref, ref2, ref2)}]
                 return [{"k": "raw", "text": "start DataBotAction(data=%s) as %s" % (expr, ref)}, self.wait_external((key, "rw")),
                         {"k": "raw", "text": 'send %s(v=%s.start_event_arguments["data"])' % (self.fresh("M"), ref)}]
             if d.chance(0.3, key, "glob"):
